@@ -5,7 +5,7 @@ import ast
 import os
 from typing import Dict, List, Optional
 
-from ..astutil import Inliner, ancestors, attr_chain, call_name, const_value, match, returns_of, set_parents, stmts_of, statement_texts
+from ..astutil import Inliner, ancestors, attr_chain, call_name, const_value, match, returns_of, set_parents, stmts_of, statement_texts, walk_no_nested
 from ..closedform import classify
 from ..core import OK, UNDECIDED, VIOLATION, VERIF_DIR, AnalysisError, FuncInfo, Repo, Report, unparse
 from ..polarity import D, I, Polarity, mk
@@ -578,6 +578,112 @@ def rule_bp_polar_schedule(repo: Repo, rep: Report) -> int:
     return n
 
 
+def rule_bp_polar_answers(repo: Repo, rep: Report, rule: str = "BP-ANSWERS") -> int:
+    """decode_iterative re-initialises the factor graph for every schedule permutation while the set of words that still
+    fail the stop criterion is carried across permutations.  The answers of words that already passed must therefore be
+    kept outside the graph: every store into a returned answer inside the loops goes through the pending-set index."""
+    ci = repo.cls(PBP, "BeliefPropagationPolarDecoder")
+    fi = repo.method(ci, "decode_iterative")
+    rets = [r for r in walk_no_nested(fi.node) if isinstance(r, ast.Return) and r.value is not None]
+    answers = sorted({nm.id for r in rets for nm in ast.walk(r.value) if isinstance(nm, ast.Name) and nm.id not in ("torch", "llr_to_bits", "self")})
+    loops = [l_ for l_ in walk_no_nested(fi.node) if isinstance(l_, (ast.For, ast.While))]
+    in_loop = {id(s_) for l_ in loops for s_ in ast.walk(l_)}
+    pending = {t.id for a in walk_no_nested(fi.node) if isinstance(a, ast.Assign) and id(a) in in_loop and isinstance(a.value, ast.Call) and (call_name(a.value) or "").split(".")[-1] == "stop_criterion" for t in a.targets if isinstance(t, ast.Name)}
+    reinit = [a for a in walk_no_nested(fi.node) if isinstance(a, ast.Assign) and id(a) in in_loop and isinstance(a.value, ast.Call) and attr_chain(a.value.func) == "self._initialize_graph"]
+    if not answers or not rets:
+        rep.undecided(rule, fi, "returned answers", "no returned names found", node=fi.node)
+        return 1
+    if not pending or not reinit:
+        rep.ok(rule, fi, "answers of the polar BP decoder", "no pending set carried across a re-initialised graph: nothing to keep" if not reinit else "no early-stop set", node=fi.node, nontrivial=False)
+        return 1
+    n = 0
+    graph = {t_.id for a in reinit for t in a.targets for t_ in ast.walk(t) if isinstance(t_, ast.Name)}
+    for nm in answers:
+        writes = [a for a in walk_no_nested(fi.node) if isinstance(a, (ast.Assign, ast.AugAssign)) and id(a) in in_loop and any((isinstance(t_, ast.Name) and t_.id == nm) or (isinstance(t_, ast.Subscript) and isinstance(t_.value, ast.Name) and t_.value.id == nm) for t in (a.targets if isinstance(a, ast.Assign) else [a.target]) for t_ in ((t.elts if isinstance(t, ast.Tuple) else [t])))]
+        if not writes:
+            continue
+        n += 1
+        bad = und = None
+        for a in writes:
+            for t in (a.targets if isinstance(a, ast.Assign) else [a.target]):
+                for t_ in (t.elts if isinstance(t, ast.Tuple) else [t]):
+                    if isinstance(t_, ast.Subscript) and isinstance(t_.value, ast.Name) and t_.value.id == nm:
+                        idx = t_.slice.elts[0] if isinstance(t_.slice, ast.Tuple) and t_.slice.elts else t_.slice
+                        if not (isinstance(idx, ast.Name) and idx.id in pending):
+                            und = und or (a, f"store `{unparse(t_)}` is not indexed by the pending set {sorted(pending)}")
+                    elif isinstance(t_, ast.Name) and t_.id == nm:
+                        reads = {x.id for x in ast.walk(a.value) if isinstance(x, ast.Name)}
+                        # one level of locals
+                        for b in walk_no_nested(fi.node):
+                            if isinstance(b, ast.Assign) and id(b) in in_loop and any(isinstance(bt, ast.Name) and bt.id in reads for bt in b.targets):
+                                reads |= {x.id for x in ast.walk(b.value) if isinstance(x, ast.Name)}
+                        if reads & graph and nm not in reads:
+                            bad = bad or (a, f"`{unparse(a)[:80]}` rebinds the whole answer from the graph state ({', '.join(sorted(reads & graph))}), which `{unparse(reinit[0])[:60]}` re-initialises for every permutation: the rows of words that already passed the stop criterion are not updated any more, so from the second permutation on their answer is read from a freshly initialised graph (information LLRs 0) - with perm = 'cycle' and early_stop the decoder returns all-zero messages for them")
+                        else:
+                            und = und or (a, f"whole-tensor rebinding `{unparse(a)[:70]}`")
+        if bad:
+            rep.violation(rule, fi, f"answer `{nm}` kept for words that passed the stop criterion", bad[1], node=bad[0])
+        elif und:
+            rep.undecided(rule, fi, f"answer `{nm}` kept for words that passed the stop criterion", und[1], node=und[0])
+        else:
+            rep.ok(rule, fi, f"answer `{nm}` kept for words that passed the stop criterion", f"every store into `{nm}` inside the loops is indexed by the pending set ({', '.join(sorted(pending))}): rows of finished words are never overwritten after the graph is re-initialised", node=writes[0])
+    if n == 0:
+        rep.undecided(rule, fi, "returned answers", f"no store into {answers} inside the loops", node=fi.node)
+        n = 1
+    return n
+
+
+def polar_transform_tabulated(repo: Repo):
+    """PolarCodeEncoder.polar_transform (with the module's index helper inlined) evaluated on every unit vector and on a few
+    sums of unit vectors for N = 2 .. 32, both variants: the rows must be those of the Kronecker power F^(x)m of
+    F = [[1, 0], [1, 1]], with the columns in bit-reversed order for the interleaved variant (G_N = B_N F^(x)m)."""
+    from ..constfold import Unfoldable
+    from ..frag import FragRaise, FragReturn, run_fragment
+
+    ci = repo.cls(PE, "PolarCodeEncoder")
+    fi = repo.method(ci, "polar_transform")
+    funcs = {nm: f.node for nm, f in ci.module.functions.items()}
+
+    def kron(m):
+        G = [[1]]
+        for _ in range(m):
+            n_ = len(G)
+            G = [[(G[i % n_][j % n_] if not (i < n_ and j >= n_) else 0) for j in range(2 * n_)] for i in range(2 * n_)]
+        return G
+
+    def bitrev(i, m):
+        return int(format(i, f"0{m}b")[::-1], 2) if m else 0
+
+    count = 0
+    for m in (1, 2, 3, 4, 5):
+        N = 2**m
+        rows = [[1 if i == j else 0 for j in range(N)] for i in range(N)]
+        # sums of unit vectors (linearity is part of the claim)
+        extra = [[1] * N, [1 if (j % 3 == 0) else 0 for j in range(N)], [1 if j >= N // 2 else 0 for j in range(N)]]
+        U = rows + extra
+        G = kron(m)
+        for pi in (False, True):
+            attrs = {"self.code_length": N, "self.m": m, "self.mask_dict": None, "self.polar_i": pi, "self.dtype": "torch.float32", "self.device": "cpu"}
+            try:
+                run_fragment(fi.body, {"u": [list(r) for r in U], "return_arr": False}, attrs, funcs=funcs, materialise=True, max_steps=6000000, attrs_live=True)
+                return None, "no value returned"
+            except FragReturn as ret:
+                out = ret.value
+            except (Unfoldable, FragRaise, TypeError, IndexError, ValueError) as exc:
+                return None, f"N = {N}: {exc}"
+            if not (isinstance(out, list) and len(out) == len(U) and all(isinstance(r, list) and len(r) == N for r in out)):
+                return None, f"N = {N}: the result is not a ({len(U)}, {N}) matrix"
+            Gp = [[G[i][bitrev(j, m)] for j in range(N)] for i in range(N)] if pi else G
+            for t, u in enumerate(U):
+                want = [sum(u[i] * Gp[i][j] for i in range(N)) % 2 for j in range(N)]
+                got = [int(x) if float(x) == int(x) else x for x in out[t]]
+                if got != want:
+                    what = f"unit vector e_{t}" if t < N else f"input {u}"
+                    return VIOLATION, f"N = {N}, {'interleaved' if pi else 'plain'} variant: the {what} is transformed to {got}; row-vector times {'B_N ' if pi else ''}F^(x){m} gives {want}: the encoder does not produce the polar code the decoders (and the published generator matrix) assume"
+                count += 1
+    return OK, f"u -> u F^(x)m (columns bit-reversed for the interleaved variant) on all unit vectors and three sums, N = 2 .. 32 ({count} words)"
+
+
 SHAPE_ONLY = ("to", "reshape", "view", "float", "double", "clone", "contiguous", "detach", "flatten", "unsqueeze", "squeeze", "cpu", "cuda", "type", "type_as", "view_as", "requires_grad_")
 
 
@@ -630,6 +736,14 @@ def run(repo: Repo, rep: Report, tier: str) -> None:
     n = rule_kernel(repo, rep)
     n += rule_bp_polar_schedule(repo, rep)
     n += rule_llr_passthrough(repo, rep)
+    n += rule_bp_polar_answers(repo, rep)
+    tst_, td_ = polar_transform_tabulated(repo)
+    tfi_ = repo.func(PE, "PolarCodeEncoder.polar_transform")
+    if tst_ is None:
+        rep.undecided("KERNEL", tfi_, "polar_transform = multiplication by the Kronecker power (tabulated)", f"not evaluable ({td_})", node=tfi_.node)
+    else:
+        rep.add("KERNEL", tfi_, "polar_transform tabulated on unit vectors for N = 2 .. 32, plain and interleaved", tst_, td_, node=tfi_.node)
+    n += 1
     n += rule_bp_decision(repo, rep)
     n += rule_rank_table(repo, rep)
     n += rule_info_set(repo, rep)
@@ -644,4 +758,4 @@ def run(repo: Repo, rep: Report, tier: str) -> None:
         "frozen value agreement between encoder, SC leaf and polar-BP initialisation (with the library's LLR polarity)",
         "SC recursion shape: f/g functions, partial sums, half splits, interleaved variant, helper closed forms",
     ]
-    rep.undecided_clauses += ["equality of the stage-wise XOR network with the Kronecker-power matrix", "convergence of the BP schedule", "SC output = textbook rule as values"]
+    rep.undecided_clauses += ["convergence of the BP schedule", "SC output = textbook rule as values"]
